@@ -464,6 +464,12 @@ func c10Gen(t *rapid.T) c10Case {
 	}
 	x0, y0 := rapid.IntRange(2, 12).Draw(t, "qx0"), rapid.IntRange(2, 12).Draw(t, "qy0")
 	c.Query = [4]int{x0, y0, x0 + rapid.IntRange(0, 5).Draw(t, "qw"), y0 + rapid.IntRange(0, 5).Draw(t, "qh")}
+	switch rapid.IntRange(0, 5).Draw(t, "qmode") {
+	case 0: // everything, the origin included: an empty child reports the zero rectangle and must still not be found
+		c.Query = [4]int{-100, -100, 100, 100}
+	case 1: // a box at the origin reaching into the data
+		c.Query = [4]int{rapid.IntRange(-3, 0).Draw(t, "qox"), rapid.IntRange(-3, 0).Draw(t, "qoy"), rapid.IntRange(0, 12).Draw(t, "qow"), rapid.IntRange(0, 12).Draw(t, "qoh")}
+	}
 	c.Stop = rapid.IntRange(0, 4).Draw(t, "stop")
 	return c
 }
